@@ -1,9 +1,9 @@
 --------------------------- MODULE MC_TestRunner ---------------------------
 (* Model checking and case generation for TestRunner (C16).
-   MC_TestRunner_2 / _3 (.cfg): EVERY scenario with 2 / 3 test functions (ground truth x marker set x
+   MC_TestRunner_1 / _2 / _3 (.cfg): EVERY scenario with 1 / 2 / 3 test functions (ground truth x marker set x
      keyword match per test x the four options x the open -x/XPASS choice), all C16 invariants in
      every state, deadlock freedom before "done", a strictly decreasing measure (=> termination; the
-     2-test config also checks <>(pc = "done") as a temporal property).
+     1-test config also checks <>(pc = "done") as a temporal property).
    MC_TestRunner_asis (.cfg): the same machine with HarnessModes = {"runs", "empty"} must VIOLATE
      PassedMeansRanAndPassed (non-vacuity of the invariant; the model of the catalogued defect).
    MC_TestRunner_cases (.cfg): the scenarios listed in the ndjson file $SCEN (chosen by the driver:
